@@ -170,7 +170,8 @@ protected:
         if (foreign("I")) return true;
         logev("I");
         arrive('i');
-        return true;
+        // the result is an input of the schedule like run_condition()'s (digit of the releasing `a`)
+        return g_free.load() ? true : g_rc.load();
     }
     void filtering_step() override {
         if (foreign("S")) return;
